@@ -133,38 +133,54 @@ def cdef_text(types, api):
     return "".join(out)
 
 
-class Universe(object):
-    """The compiled module and the four views on it (API lib, in-line ABI lib, out-of-line ABI lib, ctypes)."""
+def compile_universe(job):
+    """Generate and compile one universe module.  job = (types, facts, tag, directory, extra compiler flags);
+    returns what Universe needs."""
+    import cffi
+    types, facts, tag, d, cflags = job
+    os.makedirs(d, exist_ok=True)
+    name = "_c03u_%s" % tag
+    fb = cffi.FFI()
+    fb.cdef(cdef_text(types, True))
+    fb.set_source(name, c_source(types, facts) + c_source_api_extra(types), extra_compile_args=cflags)
+    so = fb.compile(tmpdir=d)
+    oname = "_c03o_%s" % tag
+    fo = cffi.FFI()
+    fo.cdef(cdef_text(types, False))
+    fo.set_source(oname, None)
+    opath = os.path.join(d, oname + ".py")
+    with contextlib.redirect_stdout(io.StringIO()):     # cffi announces the file name on stdout
+        fo.emit_python_code(opath)
+    return (types, facts, name, so, oname, opath)
 
-    def __init__(self, types, facts, tag):
+
+class Universe(object):
+    """A compiled module and the four views on it (API lib, in-line ABI lib, out-of-line ABI lib, ctypes)."""
+
+    def __init__(self, compiled):
         import cffi
+        types, facts, name, so, oname, opath = compiled
         self.types = types
         self.facts = facts
-        d = os.path.join(build.scratch_shared(), "c03_%s_%d" % (tag, os.getpid()))
-        os.makedirs(d, exist_ok=True)
-        name = "_c03u_%s_%d" % (tag, os.getpid())
-        fb = cffi.FFI()
-        fb.cdef(cdef_text(types, True))
-        fb.set_source(name, c_source(types, facts) + c_source_api_extra(types))
-        self.so = fb.compile(tmpdir=d)
-        mod = _import(name, self.so)
+        self.so = so
+        mod = _import(name, so)
         self.api_ffi, self.api_lib = mod.ffi, mod.lib
         # in-line ABI
         self.abi_ffi = cffi.FFI()
         self.abi_ffi.cdef(cdef_text(types, False))
-        self.abi_lib = self.abi_ffi.dlopen(self.so)
+        self.abi_lib = self.abi_ffi.dlopen(so)
         # out-of-line ABI
-        oname = "_c03o_%s_%d" % (tag, os.getpid())
-        fo = cffi.FFI()
-        fo.cdef(cdef_text(types, False))
-        fo.set_source(oname, None)
-        opath = os.path.join(d, oname + ".py")
-        with contextlib.redirect_stdout(io.StringIO()):     # cffi announces the file name on stdout
-            fo.emit_python_code(opath)
         omod = _import(oname, opath)
         self.ool_ffi = omod.ffi
-        self.ool_lib = omod.ffi.dlopen(self.so)
-        self.cdll = ctypes.CDLL(self.so)
+        self.ool_lib = omod.ffi.dlopen(so)
+        self.cdll = ctypes.CDLL(so)
+
+
+def build_universes(types, facts, tag, cflags=()):
+    """{type: Universe} (one module for all types: the fixed cost of a module build dominates)."""
+    d = os.path.join(build.scratch_shared(), "c03_%s_%d" % (tag, os.getpid()))
+    u = Universe(compile_universe((types, facts, "%s_%d" % (tag, os.getpid()), d, list(cflags))))
+    return {t: u for t in types}
 
 
 def _import(name, path):
@@ -503,7 +519,7 @@ _QUICK = True
 
 
 def work(t):
-    return check_type(_U, t, _QUICK)
+    return check_type(_U[t], t, _QUICK)
 
 
 def run(ctx):
@@ -511,12 +527,16 @@ def run(ctx):
     types = all_types()
     facts = measure(types)
     _QUICK = ctx.quick
-    ctx.log("building the universe module for %d types" % len(types))
-    _U = Universe(types, facts, "all")
-    ctx.log("universe built: %s" % os.path.basename(_U.so))
+    ctx.log("building the universe modules for %d types" % len(types))
+    # The generated module only instantiates cffi's conversion macros; the converters themselves live in the
+    # backend, which is always built with the shipped flags.  The quick tier appends -O0 for the module (a third
+    # of the compile time), the thorough tier uses exactly the flags a user's build gets.
+    _U = build_universes(types, facts, "all", ["-O0"] if ctx.quick else [])
+    ctx.log("universe built: one API-mode module, also opened in-line ABI, out-of-line ABI and by ctypes")
     # what cffi believes about the types must agree with gcc for the oracle to apply at all
     for t in types:
-        for kind, ffi in (("inline", _U.abi_ffi), ("ool", _U.ool_ffi), ("api", _U.api_ffi)):
+        u = _U[t]
+        for kind, ffi in (("inline", u.abi_ffi), ("ool", u.ool_ffi), ("api", u.api_ffi)):
             if ffi.sizeof(t) != facts[t][0]:
                 ctx.violation({"kind": "sizeof", "ffi": kind, "type_class": type_class(t, *facts[t])},
                               {"type": t, "kind": "sizeof", "cffi": ffi.sizeof(t), "gcc": facts[t][0]})
@@ -525,7 +545,8 @@ def run(ctx):
     # thorough: the 1- and 2-byte types carry the long sweeps, start them first
     order = types if ctx.quick else sorted(types, key=lambda t: (facts[t][0], types.index(t)))
     results = {}
-    for t, r in pool.pmap(work, [[t] for t in order]):
+    # the quick tier is a few CPU-seconds of work: more than a handful of workers costs more than it saves
+    for t, r in pool.pmap(work, [[t] for t in order], nproc=min(pool.NPROC, 4) if ctx.quick else None):
         if isinstance(r, pool.WorkerError):
             raise InfraError(r.tb)
         results[t] = r
@@ -546,7 +567,7 @@ def run(ctx):
         lo, hi = cref.int_range(size, sg, t == "_Bool")
         ctx.sample({"type": t, "range": [lo, hi], "values": len(values_for(lo, hi, size, ctx.quick)),
                     "example_value": hi + 1})
-    npaths = len(paths_for(_U, "int", 1))
+    npaths = len(paths_for(_U["int"], "int", 1))
     cov = {
         "evaluations": total,
         "distinct_nontrivial": nontrivial,
@@ -567,6 +588,8 @@ def run(ctx):
         "gcc 12 on this machine measures sizeof/signedness of every type (including the enums); ranges follow from them",
         "ctypes reads the memory of the global variables and the value recorded by the C functions",
         "the globals are placed between two 8-byte guards with an assembler alias (g_T = w_T+8)",
+        "the generated universe module is compiled with %s; the backend always with the shipped flags" % (
+            "the default flags + -O0 (quick tier)" if ctx.quick else "the default flags of a user's build"),
         "little-endian two's complement byte images (sys.byteorder)"])
 
 
@@ -584,7 +607,7 @@ def replay(detail):
         return 1
     types = [t]
     facts = measure(types)
-    u = Universe(types, facts, "replay")
+    u = build_universes(types, facts, "replay")[t]
     n, hist, nt, bad = check_type(u, t, True, only_path=detail["path"], only_values=[detail["value"]])
     print("type %s (size %d, %s), path %s, value %d" % (t, facts[t][0], "signed" if facts[t][1] else "unsigned",
                                                           detail["path"], detail["value"]))
